@@ -275,7 +275,7 @@ func fieldTagToFieldInfo(str string, name string) (*fieldInfo, error) {
 
 // Check that a value fits into a field described by a fieldInfo structure.
 func (i fieldInfo) check(val uint64, fldName string) error {
-	if val >= (1 << (8 * i.count)) {
+	if i.count < 8 && val >= (1<<(8*i.count)) {
 		return structuralError{fldName, fmt.Sprintf("value %d too large for size", val)}
 	}
 	if i.maxlen != 0 {
@@ -468,13 +468,14 @@ func parseField(v reflect.Value, data []byte, initOffset int, info *fieldInfo) (
 		if err != nil {
 			return offset, err
 		}
-		datalen := int(varlen)
 		offset += int(info.count)
 		rest = rest[info.count:]
 
-		if datalen > len(rest) {
+		// Compare before converting: an 8-byte length may not fit in an int.
+		if varlen > uint64(len(rest)) {
 			return offset, syntaxError{info.fieldName(), "truncated slice"}
 		}
+		datalen := int(varlen)
 		inner := rest[:datalen]
 		offset += datalen
 		if fieldType.Elem().Kind() == reflect.Uint8 {
